@@ -1049,7 +1049,7 @@ class InstGen:
         el = AnyElement(qname=q)
         kids = rng.randrange(0, 3) if depth < self.max_depth else 0
         if kids == 0:
-            el.text = rng.choice(["", "txt", "a b", "ü"])
+            el.text = rng.choice(["", "txt", "a b", "ü", " ", "\t", " lead", "trail "])  # leaf text is kept verbatim, whitespace included
         else:
             el.text = rng.choice(["", "lead"])  # the parser's canonical "no text" for a generic element is ""
             for _ in range(kids):
@@ -1100,6 +1100,8 @@ class InstGen:
         if cont in ("list", "tuple"):
             n = 0 if (deep and is_class) else rng.randrange(0, 4)
             items = [self.single(f, depth) for _ in range(n)]
+            if f.nillable and not is_class and items and rng.random() < 0.3:
+                items[rng.randrange(len(items))] = None  # a None item of a nillable list is an xsi:nil element
             return items if cont == "list" else tuple(items)
         if cont == "default":
             if rng.random() < 0.4:
